@@ -35,6 +35,7 @@ def _(self) -> ListOf(Ref("BaseOrder")):
     ensures("members_of_the_package", forall(lambda j: exists(lambda k: result[j] == self._orders[k], 0, len(self._orders)), 0, len(result)))
     ensures("violations_filtered", forall(lambda j: result[j].status != OrderStatus.VIOLATION, 0, len(result)))
     ensures("distinct_when_the_package_is", implies(distinct_orders(self._orders), distinct_orders(result)))
+    ensures("no_longer_than_the_package", len(result) <= len(self._orders))
     ensures("every_other_order_kept", forall(lambda k: implies(self._orders[k].status != OrderStatus.VIOLATION,
                                                                 exists(lambda j: result[j] == self._orders[k], 0, len(result))), 0, len(self._orders)))
 
@@ -111,7 +112,7 @@ def _(self, count: INT, failed: BOOL = False):
 schema("MaxTransactionCount", transaction_count=INT, current_transaction_count=INT, failed_transaction_count=INT, current_failed_transaction_count=INT)
 
 
-@contract("flumine/execution/baseexecution.py::BaseExecution._order_logger", tags=["C03"])
+@contract("flumine/execution/baseexecution.py::BaseExecution._order_logger", tags=["C03", "C12"])
 def _(self, order: Ref("BaseOrder"), instruction_report: Ref("InstructionReport"), package_type: ATOM):
     requires("package_kind", known_package_type(package_type))
     modifies(order, "bet_id")
@@ -120,6 +121,9 @@ def _(self, order: Ref("BaseOrder"), instruction_report: Ref("InstructionReport"
     modifies_list(order.responses.cancel_responses)
     modifies_list(order.responses.update_responses)
     ensures("status_untouched", order.status == old(order.status))
+    # C12 (pairing by bet id): a bet id is assigned only from a placement report (PLACE, or the place leg of a REPLACE)
+    ensures("cancel_and_update_reports_leave_the_bet_id", implies(package_type == OrderPackageType.CANCEL or package_type == OrderPackageType.UPDATE,
+                                                                  order.bet_id == old(order.bet_id)))
 
 
 # instruction lists of a package: content and pairing with the orders are C12's; here only "a new list, nothing written"
